@@ -1034,10 +1034,31 @@ func c05KindMapper(p *Pkg, w *strings.Builder) error {
 			ms = append(ms, m)
 		}
 	}
+	// AssertKinds returns the ids position-wise: `ids[idx] = s.Put(kind)` with idx, kind ranging over the kinds argument
+	positionWise := false
+	if fd := findFunc(p, "InMemoryKindMapper", "AssertKinds"); fd != nil {
+		ast.Inspect(fd.Body, func(n ast.Node) bool {
+			rs, ok := n.(*ast.RangeStmt)
+			if !ok || types.ExprString(rs.X) != "kinds" || rs.Key == nil {
+				return true
+			}
+			for _, st := range rs.Body.List {
+				if as, ok := st.(*ast.AssignStmt); ok && len(as.Lhs) == 1 && len(as.Rhs) == 1 {
+					if ix, ok := as.Lhs[0].(*ast.IndexExpr); ok && types.ExprString(ix.Index) == types.ExprString(rs.Key) {
+						if call, ok := as.Rhs[0].(*ast.CallExpr); ok && strings.HasSuffix(types.ExprString(call.Fun), ".Put") {
+							positionWise = true
+						}
+					}
+				}
+			}
+			return true
+		})
+	}
 	sort.Slice(ms, func(i, j int) bool { return ms[i].name < ms[j].name })
 	fmt.Fprintf(w, "/-- pgutil.InMemoryKindMapper: per method, whether it touches / writes the shared fields (the two maps and the id counter) directly and whether it takes a lock of the struct -/\n")
 	fmt.Fprintf(w, "structure KMMethod where\n  name : String\n  touches : Bool\n  writes : Bool\n  holdsLock : Bool\n  checksBeforeWrite : Bool\n  calls : List String\nderiving Repr, DecidableEq\n")
 	fmt.Fprintf(w, "def kindMapperMutexFields : List String := %s\n", leanStrList(sortedKeys(mutexes)))
+	fmt.Fprintf(w, "/-- AssertKinds fills its result position-wise (`ids[idx] = s.Put(kinds[idx])`), so the order of the ids is the order of the kinds -/\ndef assertKindsPositionWise : Bool := %v\n", positionWise)
 	fmt.Fprintf(w, "def kindMapperSharedFields : List String := %s\n", leanStrList(sortedKeys(shared)))
 	w.WriteString("def kindMapperMethods : List KMMethod := [\n")
 	for i, m := range ms {
